@@ -18,7 +18,7 @@ for P in "$@"; do
   own=$(echo "$name" | grep -o 'seeded/C[0-9][0-9]' | sed 's#seeded/##')
   [ -z "$own" ] && own=$(basename "$name" | grep -o '^[cd][0-9][0-9]' | tr 'cd' 'CC')
   set_=$(echo "$own $prev" | tr ' ' '\n' | grep . | sort -u)
-  [ -z "$set_" ] && set_="C01 C02 C03 C04 C05 C06 C07 C08 C09 C10 C11 C12 C13 C14 C15 C16 C17 C18 C19 C20"
+  [ -z "$set_" ] && set_=$(printf "%s\n" C01 C02 C03 C04 C05 C06 C07 C08 C09 C10 C11 C12 C13 C14 C15 C16 C17 C18 C19 C20)
   if ! git apply "$P" 2>/dev/null; then echo "$name APPLY-FAILED" >> "$OUT"; continue; fi
   T=$(mktemp -d /tmp/matrix.XXXX)
   first=$(echo "$set_" | head -1)
